@@ -5,6 +5,7 @@ import (
 	"flag"
 	"fmt"
 	"path/filepath"
+	"regexp"
 	"strings"
 	"time"
 
@@ -17,6 +18,8 @@ type member struct {
 }
 
 type enumScen struct {
+	Tr      []string `json:"tr"`
+	Same    bool     `json:"same"`
 	Src     []member `json:"src"`
 	Tgt     []member `json:"tgt"`
 	Map     []string `json:"map"`
@@ -27,6 +30,8 @@ type enumScen struct {
 	OK      bool     `json:"ok"`
 	Inputs  []int    `json:"inputs"`
 }
+
+var p2ident = regexp.MustCompile(`\bp2([A-Z.])`)
 
 func enumDecl(pkg string, ms []member) string {
 	var b strings.Builder
@@ -71,13 +76,19 @@ func cmdEnum(args []string) {
 	}
 	var src strings.Builder
 	imports := map[string]bool{}
+	decl := make([]string, len(scens))
+	var typeDecls strings.Builder
 	for i, s := range scens {
 		sp, tp := enumPkg("es", s.Src), enumPkg("et", s.Tgt)
+		if s.Same {
+			tp = sp
+		}
+		start := src.Len()
 		imports[sp], imports[tp] = true, true
 		st, tt := sp+".E", tp+".E"
 		switch s.Pos {
 		case "field":
-			fmt.Fprintf(&src, "\ntype SF%d struct{ F %s }\ntype TF%d struct{ F %s }\n", i, st, i, tt)
+			fmt.Fprintf(&typeDecls, "\ntype SF%d struct{ F %s }\ntype TF%d struct{ F %s }\n", i, st, i, tt)
 			st, tt = fmt.Sprintf("SF%d", i), fmt.Sprintf("TF%d", i)
 		case "elem":
 			st, tt = "[]"+st, "[]"+tt
@@ -93,25 +104,60 @@ func cmdEnum(args []string) {
 		if len(s.Map) == 2 {
 			fmt.Fprintf(&src, "\t// goverter:enum:map %s %s\n", s.Map[0], s.Map[1])
 		}
+		if len(s.Tr) == 2 {
+			fmt.Fprintf(&src, "\t// goverter:enum:transform regex %s %s\n", s.Tr[0], s.Tr[1])
+		}
 		res := tt
 		if s.RootErr {
 			res = "(" + tt + ", error)"
 		}
 		fmt.Fprintf(&src, "\tConv(source %s) %s\n}\n", st, res)
+		decl[i] = src.String()[start:]
+	}
+	// the same converters once more in reverse order (package p2, output gen2): the outcome must not depend on the order
+	var rev strings.Builder
+	for i := len(scens) - 1; i >= 0; i-- {
+		rev.WriteString(strings.ReplaceAll(strings.ReplaceAll(decl[i], "../gen/c", "../gen2/c"), b.Mod+"/gen\n", b.Mod+"/gen2\n"))
 	}
 	head := "package p\n\nimport (\n"
 	for p := range imports {
 		head += "\t\"" + b.Mod + "/" + p + "\"\n"
 	}
 	head += ")\n"
-	files["p/in.go"] = head + src.String()
+	files["p/in.go"] = head + typeDecls.String() + src.String()
+	files["p2/in.go"] = strings.Replace(head, "package p\n", "package p2\n", 1) + typeDecls.String() + rev.String()
 	hx.WriteTree(*work, files)
 	t0 := time.Now()
-	outs, err := hx.GenerateEach(hx.GenConfig(*work, []string{"./p"}, nil))
+	all, err := hx.GenerateEach(hx.GenConfig(*work, []string{"./p", "./p2"}, nil))
 	hx.Must(err)
 	b.Timing["gen"] = time.Since(t0)
-	if len(outs) != len(scens) {
+	if len(all) != 2*len(scens) {
 		panic("result count mismatch")
+	}
+	outs := make([]hx.Outcome, len(scens))
+	orderOK := make([]bool, len(scens))
+	revOut := map[string]hx.Outcome{}
+	k := 0
+	for _, o := range all {
+		if strings.Contains(o.File, "/p2/") {
+			revOut[o.Name] = o
+		} else {
+			outs[k] = o
+			k++
+		}
+	}
+	norm := func(files map[string][]byte) string {
+		var sb strings.Builder
+		for _, c := range files {
+			t := strings.ReplaceAll(strings.ReplaceAll(string(c), "gen2", "gen"), b.Mod+"/p2", b.Mod+"/p")
+			t = strings.ReplaceAll(strings.ReplaceAll(t, "import p2 ", "import p "), "\tp2 \"", "\tp \"")
+			sb.WriteString(p2ident.ReplaceAllString(t, "p$1"))
+		}
+		return sb.String()
+	}
+	for i, o := range outs {
+		r := revOut[o.Name]
+		orderOK[i] = r.Gen == o.Gen && (o.Gen != "ok" || norm(r.Files) == norm(o.Files))
 	}
 	// driver scenario file: literal integer inputs shaped by position
 	drvScen := filepath.Join(*work, "drv.ndjson")
@@ -149,7 +195,11 @@ func cmdEnum(args []string) {
 		if m == nil {
 			m = []string{}
 		}
-		return map[string]any{"id": i, "src": s.Src, "tgt": s.Tgt, "map": m, "unknown": s.Unknown, "rootErr": s.RootErr, "pos": s.Pos, "enumOn": s.EnumOn}
+		tr := s.Tr
+		if tr == nil {
+			tr = []string{}
+		}
+		return map[string]any{"id": i, "tr": tr, "same": s.Same, "src": s.Src, "tgt": s.Tgt, "map": m, "unknown": s.Unknown, "rootErr": s.RootErr, "pos": s.Pos, "enumOn": s.EnumOn}
 	}
 	nOK := 0
 	for i, o := range outs {
@@ -162,7 +212,7 @@ func cmdEnum(args []string) {
 		if o.Gen == "ok" {
 			nOK++
 		}
-		r["exec"], r["gen"], r["why"], r["compiles"], r["diag"] = false, o.Gen, why, !badc, firstLine(o.Why)
+		r["exec"], r["gen"], r["why"], r["compiles"], r["diag"], r["orderOK"] = false, o.Gen, why, !badc, firstLine(o.Why), orderOK[i]
 		roles := map[string]string{b.Mod + "/p": "user"}
 		for k, pkg := range pkgOf {
 			if strings.HasPrefix(k, "es") {
